@@ -5,7 +5,6 @@ use crate::model::chain::*;
 use crate::puppet::*;
 use crate::rawstate;
 use crate::rng::Rng;
-use cosmwasm_std::testing::MockApi;
 use cosmwasm_std::{coin, Binary, Coin};
 
 #[derive(Clone, Debug)]
@@ -48,8 +47,26 @@ pub struct Gen<'a> {
     pub watch: Option<(String, Vec<u8>)>,
 }
 
-fn ghost() -> String {
-    MockApi::default().addr_make("ghost").to_string()
+fn ghost_of(api: ApiKind) -> String {
+    api.addr_make("ghost")
+}
+
+/// Another bech32 string for the same bytes: the unused padding bits of the last data symbol set (`bits` in 1..16),
+/// checksum recomputed. Codecs that normalise accept it; cosmwasm_std's MockApi rejects it.
+pub fn alt_spelling(api: ApiKind, addr: &str, bits: u8) -> Option<String> {
+    use bech32::primitives::decode::CheckedHrpstring;
+    use bech32::{Fe32, Fe32IterExt};
+    let m = api == ApiKind::Bech32m;
+    let parsed = if m { CheckedHrpstring::new::<bech32::Bech32m>(addr).ok()? } else { CheckedHrpstring::new::<bech32::Bech32>(addr).ok()? };
+    let hrp = parsed.hrp();
+    let mut fes: Vec<Fe32> = parsed.data_part_ascii_no_checksum().iter().map(|b| Fe32::from_char(*b as char).unwrap()).collect();
+    // 32 bytes = 256 bits in 52 five-bit symbols: the low 4 bits of the last one are padding
+    if fes.len() != 52 {
+        return None;
+    }
+    let last = fes.pop()?;
+    fes.push(Fe32::try_from(last.to_u8() ^ (bits & 15).max(1)).ok()?);
+    Some(if m { fes.into_iter().with_checksum::<bech32::Bech32m>(&hrp).chars().collect() } else { fes.into_iter().with_checksum::<bech32::Bech32>(&hrp).chars().collect() })
 }
 
 impl<'a> Gen<'a> {
@@ -85,9 +102,9 @@ impl<'a> Gen<'a> {
 
     fn attr_key(&mut self) -> String {
         if self.pct(self.p.bad_attr_pct) {
-            self.rng.pick(&["", " ", "\t\n", "_", " _x", "_ ", "_reserved", "\u{00A0}", "\u{2003}\u{3000}", "  _"]).to_string()
+            self.rng.pick(&["", " ", "\t\n", "_", " _x", "_ ", "_reserved", "\u{00A0}", "\u{2003}\u{3000}", "  _", "_contract_address"]).to_string()
         } else {
-            self.rng.pick(&["action", "k", "a", "é", "x_", " a ", "a_b", "ab", "-", "\u{00A0}x", "contract_address"]).to_string()
+            self.rng.pick(&["action", "k", "a", "é", "x_", " a ", "a_b", "ab", "-", "\u{00A0}x", "contract_address", "code_id", "wasm-k"]).to_string()
         }
     }
 
@@ -95,7 +112,7 @@ impl<'a> Gen<'a> {
         if self.pct(self.p.bad_attr_pct) {
             self.rng.pick(&["", "a", " a ", "\u{00A0}a", " ", "\t", "x"]).to_string()
         } else {
-            self.rng.pick(&["ab", "  ab ", "é", "transfer", "wasm", "evt", "_x", "a b"]).to_string()
+            self.rng.pick(&["ab", "  ab ", "é", "transfer", "wasm", "evt", "_x", "a b", "wasm-transfer", "wasm-", "wasm-wasm", "execute", "reply", "instantiate", "WASM-ab", "wasm_ab", "sudo", "migrate", "-ab"]).to_string()
         }
     }
 
@@ -124,14 +141,16 @@ impl<'a> Gen<'a> {
         let mut addrs: Vec<String> = m.st.contracts.keys().cloned().collect();
         addrs.extend(self.users.iter().cloned());
         addrs.push(me.to_string());
-        let a = if self.pct(5) { "bad address".to_string() } else if self.pct(5) { ghost() } else { self.rng.pick(&addrs).clone() };
+        let a = if self.pct(5) { "bad address".to_string() } else if self.pct(5) { ghost_of(m.api) } else { self.rng.pick(&addrs).clone() };
+        let a = self.spell(m, a);
         let contracts: Vec<String> = m.st.contracts.keys().cloned().chain(std::iter::once(me.to_string())).collect();
         if let Some((wa, wk)) = self.watch.clone() {
             if self.pct(50) {
                 return if self.pct(50) { Probe::WasmRaw { addr: wa, key: Binary::from(wk) } } else { Probe::WasmSmart { addr: wa } };
             }
         }
-        let c = if self.pct(8) { ghost() } else { self.rng.pick(&contracts).clone() };
+        let c = if self.pct(8) { ghost_of(m.api) } else { self.rng.pick(&contracts).clone() };
+        let c = self.spell(m, c);
         match self.rng.below(12) {
             0 => Probe::Balance { addr: a, denom: self.rng.pick(&DENOMS).to_string() },
             1 => Probe::AllBalances { addr: a },
@@ -255,14 +274,27 @@ impl<'a> Gen<'a> {
         Sub { id, mode, payload, msg }
     }
 
+    /// Now and then another spelling of the same address (often where the codec normalises, rarely where it rejects).
+    fn spell(&mut self, m: &ChainM, a: String) -> String {
+        let p = if m.api == ApiKind::Std { 2 } else { 14 };
+        if !self.pct(p) {
+            return a;
+        }
+        if self.pct(12) {
+            return a.to_uppercase();
+        }
+        let bits = self.rng.range(1, 15) as u8;
+        alt_spelling(m.api, &a, bits).unwrap_or(a)
+    }
+
     fn target(&mut self, m: &ChainM) -> String {
         let contracts: Vec<String> = m.st.contracts.keys().cloned().collect();
         match self.rng.below(40) {
-            0 => ghost(),
+            0 => ghost_of(m.api),
             1 => "not an address".to_string(),
             2 if !contracts.is_empty() => self.rng.pick(&contracts).to_uppercase(),
             _ if !contracts.is_empty() => self.rng.pick(&contracts).clone(),
-            _ => ghost(),
+            _ => ghost_of(m.api),
         }
     }
 
@@ -287,6 +319,7 @@ impl<'a> Gen<'a> {
                 let addr = self.target(m);
                 let funds = if self.pct(self.p.funds_pct) { self.coins_for(m, sender) } else { vec![] };
                 let script = self.script(m, &addr, depth_left);
+                let addr = self.spell(m, addr);
                 Msg::Exec { addr, script: Box::new(script), funds }
             }
             60..=79 => {
@@ -295,6 +328,7 @@ impl<'a> Gen<'a> {
                 tos.push("not validated by the bank".to_string());
                 tos.push(sender.to_string());
                 let to = self.rng.pick(&tos).clone();
+                let to = self.spell(m, to);
                 let coins = self.coins_for(m, sender);
                 self.nodes_left = self.nodes_left.saturating_sub(1);
                 Msg::BankSend { to, coins }
@@ -353,6 +387,10 @@ impl<'a> Gen<'a> {
             admins.push(Some(c.clone()));
         }
         let admin = self.rng.pick(&admins).clone();
+        let admin = match admin {
+            Some(a) => Some(self.spell(m, a)),
+            None => None,
+        };
         let salt = match self.rng.below(10) {
             0..=4 => None,
             5 | 6 => Some(Binary::from(vec![self.rng.range(1, 2) as u8])),
@@ -383,15 +421,17 @@ impl<'a> Gen<'a> {
                     _ => 1,
                 };
                 let script = self.script(m, &addr, depth_left.min(2));
+                let addr = self.spell(m, addr);
                 Msg::Migrate { addr, code_id, script: Box::new(script) }
             }
             2 => {
                 let mut cands: Vec<String> = self.users.clone();
                 cands.extend(m.st.contracts.keys().cloned());
                 cands.push("not an address".to_string());
-                Msg::UpdateAdmin { addr, admin: self.rng.pick(&cands).clone() }
+                let admin = self.rng.pick(&cands).clone();
+                Msg::UpdateAdmin { addr: self.spell(m, addr), admin: self.spell(m, admin) }
             }
-            _ => Msg::ClearAdmin { addr },
+            _ => Msg::ClearAdmin { addr: self.spell(m, addr) },
         }
     }
 
@@ -447,6 +487,7 @@ impl<'a> Gen<'a> {
             _ => {
                 let kind = match self.rng.below(4) {
                     0 => CodeKind::Lifted,
+                    2 | 3 => CodeKind::Partial { reply: self.pct(50), sudo: self.pct(50), migrate: self.pct(50) },
                     1 => CodeKind::Puppet { code_tag: 50 + self.rng.below(40) as u32, checksum: Some(crate::core::hex(&self.rng.bytes(32))) },
                     _ => CodeKind::Puppet { code_tag: 50 + self.rng.below(40) as u32, checksum: None },
                 };
